@@ -136,7 +136,7 @@ PROPS['C03'] = {
         'XML lexical forms, omitted optional type attributes (defaults) and metadata are outside (roxmltree; see C04 not applicable)'],
 }
 
-UNIT_RLIMIT = {'rd': 30}
+UNIT_RLIMIT = {'page_w': 40, 'rd': 30, 'rd15': 40}
 PROPS['C09'] = {
     'level': 'proof',
     'verus': ['bits', 'page_r', 'rd_top', 'rd', 'simple', 'blob'],
@@ -340,14 +340,35 @@ PROPS['C14']['claim'] += ' Unit pcw (Verus, real bodies): PointCloudWriter::new 
 PROPS['C02']['verus'] = ['page_w', 'fmt', 'blob', 'e57w', 'pcw']
 PROPS['C16']['verus'] = ['page_w', 'page_r', 'rd_top', 'blob', 'e57w', 'pcw']
 
+TRUSTED_ALLOW['rd15'] = TRUSTED_ALLOW['fmt'] | TRUSTED_ALLOW['rd_top'] | {'external_body:shim_parse_xml'}
+_XML_EMPTY = 'roxmltree::Document::parse rejects a document of length zero (no root element): ASSUMED contract on the dependency (shim_parse_xml); String::from_utf8 / root_from_document / vec_from_document are behind the same shim'
+PROPS['C15'] = {
+    'level': 'proof',
+    'verus': ['page_w', 'fmt', 'blob', 'e57w', 'pcw', 'rd15'],
+    'claim': ('Ordering invariant over EVERY device write, by a history variable in the device model: `dirty` counts the device writes (complete or torn) that '
+              'carry a non-zero byte for device bytes 32..40 (the XML-length field of the file header), `snap` is the device image just before the first one. '
+              'Proved on the real bodies, for every outcome including every error exit: PagedWriter::{new, write, write_all(restated), flush, physical_seek, '
+              'physical_size, physical_position, align, drop}, Header/section/packet header writers, Blob::write, PointCloudWriter::{new, add_point, '
+              'write_buffer_to_disk, finalize} and E57Writer::new keep dirty == 0 (and the page buffer unable to put anything there) as long as they write at logical '
+              'offsets >= 40 or write the placeholder header; so every device image from creation until the header write inside finalize has XML length zero '
+              '(or is shorter than a header). E57Writer::finalize_customized_xml issues AT MOST ONE such write, and at that moment the device already holds every '
+              'page of the finished file (all earlier sections and the complete XML, every page sealed, placeholder still in place: `complete_but_header(snap, ..)`); '
+              'on success the final image differs from that snapshot only inside page 0. Reader side: E57Reader::new returns Err for every image that is shorter '
+              'than 48 bytes or has XML length zero. NOT decided here: images torn INSIDE the final page-0 write (the 1024 bytes that carry the real header), '
+              'where acceptance depends on roxmltree rejecting a truncated document; ImageWriter methods (thin wrappers over Blob::write) are not under contract.'),
+    'trusted': GLOBAL_TRUSTED + [_DEV, _CRC_OFF, _XML_EMPTY],
+    'assumptions': [_DEV, _XML_EMPTY,
+                    'device writes reach the device in issue order (property statement); a torn write leaves a byte prefix of the buffer (device model `torn`)',
+                    'Drop after an I/O ERROR is not covered (after a failed physical_seek the page buffer may hold another page; the caller already has the error)',
+                    'the image torn inside the final page-0 write is outside the claim (see claim text)',
+                    'ImageWriter::{add_*,finalize} and E57Writer::{add_pointcloud,add_blob,add_image} are thin wrappers (no own device access) and not under contract'],
+}
 FIX_COMMITS = ['4bb8197', '4c9a29a', '15147a8', '4e117ba', 'b93d656', 'a099e6e', 'e707a6b', '30d67e9', '4443841', '1d90b93', 'ec0e9b9', 'ed32bde']
 
 _PENDING = 'unit not completed yet in the build round (applicable; see DESIGN.md §1) — not claimed until its obligations are discharged'
 NOT_APPLICABLE = {
     
     'C04': 'lives entirely in format!-built strings and roxmltree parsing; no contract within reach of Verus (no str byte reasoning) or Kani (roxmltree does not finish) can state parse(serialise(x)) = x (DESIGN.md §6)',
-     
-    'C15': 'applicable but not claimed: the torn-write ordering invariant (device bytes 24..40 stay zero through every device write of every operation until the final header write, DESIGN.md 5.15) was not built; crash-point enumeration is another technique family. Its proved ingredients are under C02: E57Writer::new leaves a placeholder header with zero XML offset/length, finalize_customized_xml replaces only logical bytes 0..48 after the XML has been flushed.',
     'C18': 'about roxmltree name matching and element lookup over arbitrary XML trees; would need an assumed contract on the dependency, which decides nothing (DESIGN.md §6)',
     'C19': 'whole-file composition of C01+C03+C04 plus writer determinism; the XML half is out of reach and whole-program composition is not a per-function contract; decidable ingredients are discharged under C10/C11/C12 (DESIGN.md §6)',
     'C20': 'the tools are main() functions doing process and file I/O; there is no function to put under contract (DESIGN.md §6)',
